@@ -155,4 +155,49 @@ theorem accepted_index_disjoint (aw dw sh : Nat) (rs : List Region) (hdw : dw / 
   · exact heq
   · exact absurd ⟨h2, h1⟩ (hp k j hk hj hgt a ha)
 
+/-! ### `add_master(region=…)`: the remapper confines the master to its region -/
+
+/-- For a region of `2^k` bytes (`k ≥ sh`) whose origin is aligned on its size and which lies inside the address
+    space, the remapped word address always denotes a byte address inside `[origin, origin + 2^k)`. -/
+theorem remapAdr_confined (origin k sh aw a : Nat) (hk : sh ≤ k) (hal : origin % 2 ^ k = 0)
+    (hfit : origin + 2 ^ k ≤ 2 ^ aw) :
+    origin ≤ remapAdr origin (2 ^ k) sh aw a * 2 ^ sh ∧ remapAdr origin (2 ^ k) sh aw a * 2 ^ sh < origin + 2 ^ k := by
+  obtain ⟨q, hq⟩ := Nat.dvd_of_mod_eq_zero hal
+  have hka : k ≤ aw := by
+    have : 2 ^ k ≤ 2 ^ aw := by omega
+    exact (Nat.pow_le_pow_iff_right (by decide)).1 this
+  have hsplit : (2 : Nat) ^ k = 2 ^ (k - sh) * 2 ^ sh := by rw [← Nat.pow_add]; congr 1; omega
+  have hsplitA : (2 : Nat) ^ aw = 2 ^ (aw - sh) * 2 ^ sh := by rw [← Nat.pow_add]; congr 1; omega
+  have hpos : 0 < 2 ^ sh := Nat.two_pow_pos sh
+  -- origin >>> sh = q * 2^(k-sh)
+  have horg : origin >>> sh = q * 2 ^ (k - sh) := by
+    rw [Nat.shiftRight_eq_div_pow, hq, hsplit, Nat.mul_comm (2 ^ (k - sh) * 2 ^ sh) q, ← Nat.mul_assoc,
+      Nat.mul_div_cancel _ hpos]
+  unfold remapAdr
+  rw [Nat.log2_two_pow, horg]
+  generalize hr : a % 2 ^ (aw - sh) % 2 ^ (k - sh) = r
+  have hrlt : r < 2 ^ (k - sh) := by rw [← hr]; exact Nat.mod_lt _ (Nat.two_pow_pos _)
+  have hor : q * 2 ^ (k - sh) ||| r = q * 2 ^ (k - sh) + r := by
+    rw [← Nat.shiftLeft_eq, ← Nat.shiftLeft_add_eq_or_of_lt hrlt]
+  rw [hor]
+  -- the sum fits the address signal
+  have hq1 : (q + 1) * 2 ^ (k - sh) ≤ 2 ^ (aw - sh) := by
+    have h1 : (q + 1) * 2 ^ (k - sh) * 2 ^ sh ≤ 2 ^ (aw - sh) * 2 ^ sh := by
+      rw [Nat.mul_assoc, ← hsplit, ← hsplitA, Nat.add_mul, Nat.one_mul, Nat.mul_comm q]
+      omega
+    exact Nat.le_of_mul_le_mul_right h1 hpos
+  have hlt : q * 2 ^ (k - sh) + r < 2 ^ (aw - sh) := by
+    rw [Nat.add_mul, Nat.one_mul] at hq1
+    omega
+  rw [Nat.mod_eq_of_lt hlt, Nat.add_mul, Nat.mul_assoc, ← hsplit, hq, Nat.mul_comm q]
+  have hr2 : r * 2 ^ sh < 2 ^ k := by
+    rw [hsplit]; exact Nat.mul_lt_mul_of_pos_right hrlt hpos
+  omega
+
+/-- A port without remapper presents the master's address unchanged. -/
+theorem portAdr_none (c : SocRCfg) (i a : Nat) (h : c.remaps[i]? = none ∨ c.remaps[i]? = some none) :
+    c.portAdr i a = a := by
+  unfold SocRCfg.portAdr
+  rcases h with h | h <;> rw [h]
+
 end Litex.Wishbone
